@@ -297,6 +297,13 @@ def replay(prop):
     def go(v, drv):
         from suites import Outcome
         o = Outcome(prop)
+        if v.get('suite') == 'cli':
+            import s_cli
+            case = v['case']
+            with impl.Sandbox() as sb:
+                api = T.run_real(sb.dir, case, variant='api'); cli = s_cli.run_main(sb.dir, case, 'cli')
+            bad = cli['status'] != api['status'] or (cli['stdout'] != api['stdout'] if case.get('output') is None else cli['files'] != api['files'])
+            return dict(fails=bool(bad), api_status=api['status'], cli_status=cli['status'], cli_stdout=cli['stdout'][:500], api_stdout=api['stdout'][:500])
         with impl.Sandbox() as sb:
             check_case(prop, v['case'], sb, drv, tuple(v.get('key', ())), o)
         return dict(fails=bool(o.violations), violations=[x['detail'] for x in o.violations][:3], disagreements=[x['detail'] for x in o.disagreements][:2])
